@@ -10,7 +10,8 @@
 (*    [k |-> "choice", subs]                     ChoiceLoader(subs)        *)
 (*    [k |-> "prefix", delim, keys, subs]        PrefixLoader({keys[j]:    *)
 (*                                               subs[j]}, delim)          *)
-(* Names are sequences of atoms (words, "/", ":") as in Loaders.tla.       *)
+(* Names and delimiters are sequences of atoms (words, "/", ":", "-", ">")  *)
+(* as in Loaders.tla; a delimiter may have several atoms ("::", "->").     *)
 (*                                                                         *)
 (* Operational layer = get_source / load of the two classes as a machine   *)
 (* with an explicit stack of active loader calls and a result register:    *)
@@ -39,8 +40,11 @@ NF == <<"TemplateNotFound">>
 Src(id, n) == <<"source", id, n>>
 
 (* ---- abstract layer ----------------------------------------------------- *)
-HasDelim(n, a) == \E k \in 1..Len(n) : n[k] = a
-FirstIdx(n, a) == CHOOSE k \in 1..Len(n) : n[k] = a /\ \A j \in 1..(k - 1) : n[j] # a
+\* the delimiter is a non-empty sequence of atoms ("/", "::", "->", ...); str.split(delim, 1) cuts at
+\* its first occurrence and drops the WHOLE delimiter
+OccursAt(n, d, k) == k + Len(d) - 1 <= Len(n) /\ SubSeq(n, k, k + Len(d) - 1) = d
+HasDelim(n, d) == \E k \in 1..Len(n) : OccursAt(n, d, k)
+FirstIdx(n, d) == CHOOSE k \in 1..Len(n) : OccursAt(n, d, k) /\ \A j \in 1..(k - 1) : ~OccursAt(n, d, j)
 
 \* where a prefix loader sends a name: 0 = nowhere
 RouteIdx(t, n) ==
@@ -48,7 +52,7 @@ RouteIdx(t, n) ==
     ELSE LET pre == SubSeq(n, 1, FirstIdx(n, t.delim) - 1)
              hits == {j \in 1..Len(t.keys) : t.keys[j] = pre}
          IN IF hits = {} THEN 0 ELSE CHOOSE j \in hits : TRUE
-RouteRest(t, n) == SubSeq(n, FirstIdx(n, t.delim) + 1, Len(n))
+RouteRest(t, n) == SubSeq(n, FirstIdx(n, t.delim) + Len(t.delim), Len(n))
 
 RECURSIVE Concat(_)
 Concat(ss) == IF ss = <<>> THEN <<>> ELSE Head(ss) \o Concat(Tail(ss))
